@@ -1,6 +1,7 @@
 // C05 — elastic_integer arithmetic never overflows and stays within its declared digits
 #pragma once
 #include "../scaledval.h"
+#include "../sweep.h"
 
 namespace c05 {
 using namespace vf;
@@ -181,10 +182,10 @@ struct Esi {
     using LI = scaled_info<L>;
     using RI = scaled_info<R>;
     static constexpr int LD = declared_digits<L>, RD = declared_digits<R>;
-    static constexpr int n_ops = 10;
+    static constexpr int n_ops = 12;
     static char const* opname(int op)
     {
-        static char const* n[] = {"+", "-", "*", "neg", "==", "!=", "<", "<=", ">", ">="};
+        static char const* n[] = {"+", "-", "*", "neg", "==", "!=", "<", "<=", ">", ">=", "+=", "-="};
         return n[op];
     }
     static void check(int op, mpz_class const& za, mpz_class const& zb, Outcome& o, std::string* d)
@@ -215,6 +216,28 @@ struct Esi {
             case 1: good = judge_scaled("-", a - b, va - vb); break;
             case 2: good = judge_scaled("*", a * b, va * vb); break;
             case 3: good = judge_scaled("neg", -a, -va); break;
+            case 10:
+            case 11: {
+                // a op= b is a = a op b converted back to a's type: truncated toward zero at a's resolution (cases whose result leaves
+                // a's declared digits are not part of the property: elastic types do not check narrowing)
+                mpq_class t = (op == 10 ? mpq_class(va + vb) : mpq_class(va - vb)) / qpow(2, LI::exponent);
+                mpz_class want = q_trunc(t);
+                if (abs(t) > mkq(dmax(LD)) || (!declared_signed<L> && t < 0)) {  // (the exact result itself, e.g. not -2^-31 into an unsigned type)
+                    o.discard("compound-result-outside-declared-range");
+                    good = false;
+                    break;
+                }
+                L x = a;
+                if (op == 10)
+                    x += b;
+                else
+                    x -= b;
+                if (rep_mpz(x) != want) {
+                    o.fail(std::string("esi") + opname(op) + "/value-mismatch", "expected rep " + zstr(want) + " got " + zstr(rep_mpz(x)));
+                    good = false;
+                }
+                break;
+            }
             default: {
                 int ord = cmp(va, vb);
                 bool e[6] = {ord == 0, ord != 0, ord < 0, ord <= 0, ord > 0, ord >= 0};
@@ -246,5 +269,80 @@ struct Esi {
         check(op, za, zb, o, d);
     }
     static void reg(char const* name) { add_site({std::string("C05|esi|") + name, run, 0, nullptr}); }
+};
+// elastic_integer combined with a built-in integer (on either side): the built-in operand is wrapped by value, so the result is the
+// exact result again (an unsigned elastic_integer times a negative int is negative) and comparisons follow the values
+template<class E, class B>
+struct WithBuiltin {
+    static constexpr int ED = declared_digits<E>;
+    static constexpr int n_ops = 11;
+    static char const* opname(int op)
+    {
+        static char const* n[] = {"+", "-", "*", "/", "%", "==", "!=", "<", "<=", ">", ">="};
+        return n[op];
+    }
+    static void check(int op, bool builtin_left, mpz_class const& ze, B b, Outcome& o, std::string* d)
+    {
+        mpz_class zb = to_mpz(b);
+        if (d) *d = std::string(builtin_left ? "builtin " : "elastic ") + opname(op) + (builtin_left ? " elastic" : " builtin") + " e=" + zstr(ze) + " b=" + zstr(zb);
+        o.fp = fpn(ze, zb, op * 2 + (builtin_left ? 1 : 0));
+        mpz_class const& zl = builtin_left ? zb : ze;
+        mpz_class const& zr = builtin_left ? ze : zb;
+        if ((op == 3 || op == 4) && zr == 0) return o.discard("zero-divisor");
+        // elastic_integer<digits of B> has a symmetric range: the most negative built-in value is not one of its values
+        if (is_signed_int_v<B> && b == int_min<B>()) return o.discard("most-negative-builtin-outside-the-elastic-range");
+        // the wrapped built-in has all the digits of its type: products beyond the widest storage are ill-formed, not generated here
+        E e = make_rep<E>(ze);
+        bool good = true;
+        std::string const side = builtin_left ? "builtin-lhs" : "builtin-rhs";
+        auto arith = [&](auto const& res, mpz_class const& exact) {
+            good = judge_result((side + opname(op)).c_str(), res, exact, o);
+        };
+        bool ok = guard(o, [&] {
+            mpz_class q, r;
+            if (op == 3 || op == 4) mpz_tdiv_qr(q.get_mpz_t(), r.get_mpz_t(), zl.get_mpz_t(), zr.get_mpz_t());
+            auto go = [&](auto const& x, auto const& y) {
+                switch (op) {
+                case 0: arith(x + y, zl + zr); break;
+                case 1: arith(x - y, zl - zr); break;
+                case 2:
+                    if constexpr (ED + int(sizeof(B)) * 8 <= 127) arith(x * y, zl * zr);
+                    break;
+                case 3: arith(x / y, q); break;
+                case 4: arith(x % y, r); break;
+                default: {
+                    int ord = cmp(zl, zr);
+                    bool ex[6] = {ord == 0, ord != 0, ord < 0, ord <= 0, ord > 0, ord >= 0};
+                    bool g[6] = {x == y, x != y, x < y, x <= y, x > y, x >= y};
+                    if (g[op - 5] != ex[op - 5]) {
+                        o.fail(side + "cmp" + opname(op) + "/value-mismatch", std::string("expected ") + (ex[op - 5] ? "true" : "false"));
+                        good = false;
+                    }
+                }
+                }
+            };
+            if (builtin_left)
+                go(b, e);
+            else
+                go(e, b);
+        });
+        if (!ok) {
+            o.fclass = side + opname(op) + "/" + o.fclass;
+            return;
+        }
+        if (!good) return;
+        if (op == 2 && ED + int(sizeof(B)) * 8 > 127) return o.discard("product-exceeds-widest-storage");
+        o.pass(zb < 0 || abs(ze) == dmax(ED), zb < 0 ? "negative-builtin" : opname(op));
+    }
+    static void run(Words& w, Outcome& o, std::string* d)
+    {
+        int op = int(draw_small(w, 0, n_ops - 1));
+        bool left = (w.next() & 1) != 0;
+        mpz_class ze = draw_declared<E>(w);
+        B b = draw_int<B>(w);
+        if (w.next() % 3 == 0) b = static_cast<B>(draw_small(w, -9, 9));
+        check(op, left, ze, b, o, d);
+    }
+    static void reg(char const* name) { add_site({std::string("C05|with-builtin|") + name, run, 0, nullptr}); }
 };
 }  // namespace c05
